@@ -53,3 +53,16 @@ Qed.
 (* every per-class dispatcher covers the nine classes; convectionUpwindTerm and the TVD term forward *args *)
 Theorem upwind_forwards_args : forall g, snd (disp_convectionUpwindTerm g) = true /\ snd (disp_convectionTVDupwindRHSTerm g) = true.
 Proof. intros g. destruct g; split; reflexivity. Qed.
+
+(* C14: every arithmetic / logical operator is defined together with its reflected form (scalar on either side);
+   comparisons need no reflected method (Python swaps to the mirrored comparison); unary minus and abs exist *)
+Open Scope string_scope.
+Definition binary_ops : list string := ["add"; "sub"; "mul"; "truediv"; "pow"; "and"; "or"].
+Definition comparison_ops : list string := ["gt"; "ge"; "lt"; "le"].
+Definition sin (x : string) (l : list string) : bool := existsb (String.eqb x) l.
+Definition ops_complete (tbl : list string) : bool :=
+  forallb (fun o => sin ("__" ++ o ++ "__") tbl && sin ("__r" ++ o ++ "__") tbl) binary_ops
+  && forallb (fun o => sin ("__" ++ o ++ "__") tbl) comparison_ops
+  && sin "__neg__" tbl && sin "__abs__" tbl.
+Theorem operators_complete : ops_complete cell_dunders = true /\ ops_complete face_dunders = true.
+Proof. split; vm_compute; reflexivity. Qed.
